@@ -325,3 +325,97 @@ Qed.
 Lemma ends_rep_fuel E g lo hi r st fuel : lo + length (snd st) < fuel ->
   ends E (RRep g lo hi r) st = rep_loop (ends E r) g lo hi fuel st.
 Proof. intros H. cbn [ends]. apply rep_loop_fuel; [apply ends_shrinks | lia | exact H]. Qed.
+
+(* ---------------------------------------------------------------- invariants of every success *)
+(* the text is only traversed: reversed prefix ++ rest is the same text, and rest is a suffix of the rest given *)
+Definition same_text (st st' : list N * list N) : Prop := rev (fst st') ++ snd st' = rev (fst st) ++ snd st.
+
+Lemma rep_loop_same_text step g :
+  (forall st st', In st' (step st) -> same_text st st') ->
+  forall fuel lo hi st st', In st' (rep_loop step g lo hi fuel st) -> same_text st st'.
+Proof.
+  intros Hs. induction fuel as [|f IH]; intros lo hi st st' Hin; [destruct Hin|].
+  cbn [rep_loop] in Hin. destruct lo as [|lo'].
+  - destruct (is_zero_opt hi).
+    + destruct Hin as [<-|[]]. reflexivity.
+    + assert (Hmore : forall x, In x (flat_map (fun st'0 => if Nat.ltb (length (snd st'0)) (length (snd st))
+                                   then rep_loop step g 0 (pred_opt hi) f st'0 else []) (step st)) -> same_text st x).
+      { intros x Hx. apply in_flat_map in Hx as (mid & Hmid & Hx).
+        destruct (Nat.ltb (length (snd mid)) (length (snd st))); [|destruct Hx].
+        specialize (IH _ _ _ _ Hx). specialize (Hs _ _ Hmid). unfold same_text in *. congruence. }
+      destruct g.
+      * apply in_app_or in Hin as [Hin | [<-|[]]]; [apply Hmore; exact Hin | reflexivity].
+      * destruct Hin as [<- | Hin]; [reflexivity | apply Hmore; exact Hin].
+  - apply in_flat_map in Hin as (mid & Hmid & Hin). specialize (IH _ _ _ _ Hin). specialize (Hs _ _ Hmid).
+    unfold same_text in *. congruence.
+Qed.
+
+Lemma step1_same_text ok st st' : In st' (step1 ok st) -> same_text st st'.
+Proof.
+  destruct st as [pre rest]. unfold step1. cbn [snd fst]. destruct rest as [|c t]; [intros []|].
+  destruct (ok c); [|intros []]. intros [<-|[]]. unfold same_text. cbn [fst snd rev]. rewrite <- app_assoc. reflexivity.
+Qed.
+
+Lemma ends_same_text E r : forall st st', In st' (ends E r st) -> same_text st st'.
+Proof.
+  induction r; intros st st' Hin; cbn [ends] in Hin;
+    try (apply (step1_same_text _ _ _ Hin)).
+  - destruct Hin as [<-|[]]. reflexivity.
+  - apply in_flat_map in Hin as (mid & Hmid & Hin). specialize (IHr1 _ _ Hmid). specialize (IHr2 _ _ Hin).
+    unfold same_text in *. congruence.
+  - apply in_app_or in Hin as [Hin|Hin]; [apply (IHr1 _ _ Hin) | apply (IHr2 _ _ Hin)].
+  - apply (rep_loop_same_text _ _ IHr _ _ _ _ _ Hin).
+  - apply (IHr _ _ Hin).
+  - destruct (xorb neg (nonempty (ends E r st))); [destruct Hin as [<-|[]]; reflexivity | destruct Hin].
+  - destruct (back w st).
+    + destruct (xorb neg _); [destruct Hin as [<-|[]]; reflexivity | destruct Hin].
+    + destruct neg; [destruct Hin as [<-|[]]; reflexivity | destruct Hin].
+  - destruct (xorb neg (word_boundary E st)); [destruct Hin as [<-|[]]; reflexivity | destruct Hin].
+  - destruct (at_bol E st); [destruct Hin as [<-|[]]; reflexivity | destruct Hin].
+  - destruct (at_eol E st); [destruct Hin as [<-|[]]; reflexivity | destruct Hin].
+Qed.
+
+Lemma suffix_of_app {A} (a b s s' : list A) : a ++ s' = b ++ s -> length s' <= length s -> exists m, s = m ++ s'.
+Proof.
+  intros Heq Hlen. apply app_eq_app in Heq as [l [[-> Hs] | [-> Hs]]].
+  - exists l. exact Hs.
+  - assert (l = []).
+    { destruct l as [|x l]; [reflexivity|]. subst s'. rewrite app_length in Hlen. cbn in Hlen. lia. }
+    subst l. exists []. symmetry. exact Hs.
+Qed.
+
+(* every success consumed a prefix `m` of the input: rest = m ++ rest', prefix' = rev m ++ prefix *)
+Lemma ends_consumes E r pre rest st' :
+  In st' (ends E r (pre, rest)) -> exists m, rest = m ++ snd st' /\ fst st' = rev m ++ pre.
+Proof.
+  intros Hin. pose proof (ends_same_text E r _ _ Hin) as Ht. pose proof (ends_shrinks E r _ _ Hin) as Hl.
+  unfold same_text in Ht. cbn [fst snd] in *.
+  destruct (suffix_of_app _ _ _ _ Ht Hl) as [m Hm]. exists m. split; [exact Hm|].
+  rewrite Hm in Ht. rewrite app_assoc in Ht. apply app_inv_tail in Ht.
+  apply (f_equal (@rev N)) in Ht. rewrite rev_involutive, rev_app_distr, rev_involutive in Ht. exact Ht.
+Qed.
+
+(* what rx_match reports is the length of a prefix of the input, and the match is the head success *)
+Lemma rx_match_prefix E r pre rest n :
+  rx_match E r pre rest = Some n ->
+  exists m rest', rest = m ++ rest' /\ length m = n /\ rx_first E r (pre, rest) = Some (rev m ++ pre, rest').
+Proof.
+  unfold rx_match, rx_first. destruct (ends E r (pre, rest)) as [|st' l] eqn:He; [discriminate|].
+  intros [= <-]. destruct (ends_consumes E r pre rest st') as (m & Hm & Hp); [rewrite He; left; reflexivity|].
+  exists m, (snd st'). split; [exact Hm|]. split.
+  - rewrite Hm at 1. rewrite app_length. lia.
+  - cbn [hd_error]. rewrite <- Hp. destruct st'; reflexivity.
+Qed.
+
+Lemma ends_seq_in E a b st st' :
+  In st' (ends E (RSeq a b) st) -> exists mid, In mid (ends E a st) /\ In st' (ends E b mid).
+Proof. rewrite ends_seq. intros H. apply in_flat_map in H. exact H. Qed.
+
+(* a pattern that ends in a negative look-ahead for a character set only succeeds before a character outside it *)
+Lemma ends_lookahead_neg_in E items st st' :
+  In st' (ends E (RLookAhead true (RSet false items)) st) -> st' = st /\ stops (fun c => set_mem E c items) (snd st).
+Proof.
+  cbn [ends]. destruct st as [pre rest]. unfold step1. cbn [snd fst]. destruct rest as [|c t].
+  - cbn. intros [<-|[]]. split; [reflexivity | exact I].
+  - cbn [xorb stops]. destruct (set_mem E c items); cbn; [intros [] | intros [<-|[]]; split; reflexivity].
+Qed.
